@@ -480,8 +480,9 @@ Definition agent_response (buf : bytes) : aresp :=
 (* ====================================================================================== *)
 (* 6. copy-data (sftp.py SFTPServerHandler._process_copy_data).  Abstract file: only its size matters for
       termination.  read(src, off, size) returns min(size, max(0, srcsize - off)) bytes; write(dst, off, data)
-      extends dst to at least off + len(data).  [same] = source and destination handles name the same file
-      (nothing in the code forbids it), so writing moves the source's end. *)
+      extends dst to at least off + len(data).  [same] = source and destination handles name the same file.
+      Since fix COMMIT_C10_1 such a request is refused (SFTPFailure) before the loop, as OpenSSH's sftp-server
+      does; [copy_data_old] is the code before that fix, where writing moved the source's end. *)
 
 Definition COPY_BLOCK : Z := 262144.
 
@@ -502,8 +503,12 @@ Fixpoint copy_loop (fuel : nat) (same : bool) (srcsize roff len woff : Z) (to_en
     end
   else CDone iters written.
 
-Definition copy_data (fuel : nat) (same : bool) (srcsize roff len woff : Z) : cres :=
+Definition copy_data_old (fuel : nat) (same : bool) (srcsize roff len woff : Z) : cres :=
   copy_loop fuel same srcsize roff len woff (len =? 0) 0 0.
+
+(* the request as handled now: refused without a single read or write when both handles are the same file *)
+Definition copy_data (fuel : nat) (same : bool) (srcsize roff len woff : Z) : cres :=
+  if same then CDone 0 0 else copy_loop fuel false srcsize roff len woff (len =? 0) 0 0.
 
 (* ====================================================================================== *)
 (* 7. Cost of the clear-text receive loop of connection.py (_recv_data / _recv_pkthdr / _recv_packet), whose
